@@ -4,7 +4,7 @@ import numpy as np
 from common import *
 import procgen as pg
 
-PROP_MODULES = ["HvsrVerif.Props.C17", "HvsrVerif.Props.C17Inv", "HvsrVerif.Props.C17Deriv"]
+PROP_MODULES = ["HvsrVerif.Props.C17", "HvsrVerif.Props.C17Inv", "HvsrVerif.Props.C17Deriv", "HvsrVerif.Props.C17Odd"]
 BRIDGE_MODULES = ["HvsrVerif.Bridge.PyPsd"]
 
 
